@@ -232,6 +232,25 @@ PROPS["C12"] = {
     "level_note": "Trusted: Lean kernel, harness. Middlewares are user code run between model steps; what else may happen meanwhile (the connection ending) belongs to C06.",
     "technique": "Lean 4 proof (induction over chains) + scenario correspondence on the real server",
 }
+PROPS["C05"] = {
+    "lean": ["SioVerif.Props.C05"],
+    "components": ["timed:TestNamespaces"],
+    "facts": [],
+    "rule": "a protocol-level peer sends 12 hand-written and 60 (thorough 3000) random scripts of raw CONNECT / EVENT / ACK / DISCONNECT / CONNECT_ERROR packets for seven "
+            "namespaces (/, /a, /ab, /a/b, /ü, one that does not exist, one whose middleware rejects) over one connection to the real server (polling and websocket); the "
+            "server-side effects in virtual-time order are compared with the model. Real Go clients: 1..4 namespaces drawn from {/, '', /a, /ab, /a/b, a, /ü} on shared and "
+            "separate connections, CONNECT replies delayed per namespace, three ack-carrying emits per namespace, one broadcast per namespace, one namespace disconnected "
+            "from either side. Non-trivial = every script / scenario; distinct by request line / description.",
+    "trusted_base": EXT + ["go1.26.8 testing/synctest"],
+    "assumptions": ["CONNECT_ERROR replies are compared as a count per script (they are read from the peer at the end)"],
+    "level_text": "Lean 4 theorems over the dispatch decision of a server connection, for every packet and every packet sequence: whatever a packet for namespace n causes "
+                  "concerns n only or closes the whole connection; events and acks are dispatched only to attached namespaces; a namespace is attached only if it is served "
+                  "and its middleware chain accepted a CONNECT for it; DISCONNECT detaches that namespace only; EVENT / ACK / DISCONNECT for a namespace that is not attached, a "
+                  "second CONNECT, or a client CONNECT_ERROR dispatch nothing and close the connection. Namespace naming on the wire is C09's header theorem, broadcast "
+                  "isolation C04's. The real server's effects for raw packet scripts equal the model's.",
+    "level_note": "Trusted: Lean kernel, harness. The client manager's routing is exercised by the Go-client scenarios, not modelled.",
+    "technique": "Lean 4 proof (case analysis + invariant over packet sequences) + raw-protocol script correspondence",
+}
 
 NOT_APPLICABLE = [
 ]
